@@ -17,15 +17,21 @@ from gen import grammars as G
 def gen_cases(ctx, n_grammars, n_inputs):
     rng = ctx.rng
     cases = [(g, G.inputs_for(rng, g, n_inputs)) for g in G.classic_corpus() if g.is_reduced()]
+    for src in G.gc_corpus()[:ctx.n(40, 120)]:
+        g = G.from_text(src)
+        if g.is_reduced() and not g.derives_cycle():
+            ctx.count("family_gc_corpus")
+            cases.append((g, G.inputs_for(rng, g, n_inputs)))
     fams = [("notlalr", lambda: G.not_lalr_template(rng)),
             ("reduced", lambda: G.reduced_random_grammar(rng)),
             ("reduced_big", lambda: G.reduced_random_grammar(rng, nrules=rng.randint(4, 7), ntoks=rng.randint(2, 5))),
             ("nullable", lambda: G.nullable_heavy(rng)),
             ("exprnoprec", lambda: G.expr_grammar(rng, with_prec=False)),
             ("layered", lambda: G.layered_grammar(rng).reduced()),
-            ("chain", lambda: G.chain_grammar(rng).reduced())]
+            ("chain", lambda: G.chain_grammar(rng).reduced()),
+            ("notlalr3", lambda: G.not_lalr_multi(rng).reduced())]
     while len(cases) < n_grammars:
-        name, f = rng.choices(fams, [6, 5, 3, 3, 1, 5, 3])[0]
+        name, f = rng.choices(fams, [6, 5, 3, 3, 1, 5, 3, 6])[0]
         g = f()
         if g is None or not g.is_reduced() or g.derives_cycle():
             continue
